@@ -135,7 +135,7 @@ def run(chk):
     quick = chk.tier == "quick"
     chk.lean_stage()
     from props import c07_nested
-    c07_nested.run(chk, 80 if quick else 1500)
+    c07_nested.run(chk, 140 if quick else 2000)
     n = 500 if quick else 12000
     cases = common.load_corpus("C07")
     for i in range(n):
